@@ -7,6 +7,7 @@ import (
 	"fmt"
 	"sort"
 	"strings"
+	"sync/atomic"
 
 	"github.com/oasisprotocol/curve25519-voi/curve"
 	"github.com/oasisprotocol/curve25519-voi/internal/verif/mc"
@@ -235,8 +236,17 @@ func apply(c cache.Cache, o op) int {
 	return -2
 }
 
+// uninspectable is set when the hook cannot read the cache's representation (a refactoring changed it): structural
+// invariants and the recency order are then not observable; results of every Get/Put are still compared with the model,
+// the state key falls back to the model's state, and the evidence records the cap.
+var uninspectable int32
+
 func realState(c cache.Cache) (order []int, problems []string) {
 	ord, _, _, pr := cache.VerifLRUState(c)
+	if len(pr) == 1 && pr[0] == cache.VerifUninspectable {
+		atomic.StoreInt32(&uninspectable, 1)
+		return nil, nil
+	}
 	for _, k := range ord {
 		if i, ok := kidx[k]; ok {
 			order = append(order, i)
@@ -268,6 +278,9 @@ func run(c *mc.Ctx) {
 		}
 	})
 	subSuffix = ""
+	if atomic.LoadInt32(&uninspectable) == 1 {
+		c.Cap("the LRU cache's representation could not be read by the accessor (it no longer has a map keyed by the compressed key + container/list + int capacity): structural invariants and the recency order were not observed; every Get/Put result was still compared with the sequential model")
+	}
 }
 
 // ---- (a) sequential closure -------------------------------------------------
@@ -328,6 +341,9 @@ func seqClosure(c *mc.Ctx) {
 				}
 				if msg := checkHanded(); msg != "" {
 					w.Fail("lruCache/object-overwritten", fmt.Sprintf("cap=%d history %v: %s", g.cap, hist, msg), cas)
+				}
+				if atomic.LoadInt32(&uninspectable) == 1 {
+					ord = append([]int{}, m.order...) // behavioural mode: the model's state stands in for the real one
 				}
 				if fmt.Sprint(ord) != m.key() {
 					w.Fail("lruCache/lru-order", fmt.Sprintf("cap=%d history %v: recency order %v, model %v", g.cap, hist, ord, m.order), cas)
